@@ -332,10 +332,15 @@ FLOAT, MPF, FRACTION = FloatDom(), MpfDom(), FracDom()
 # ---------------------------------------------------------------------------------------------
 # interpreter
 # ---------------------------------------------------------------------------------------------
-def run(prog: Prog, args, dom=FLOAT, want_sig=True, margins=None):
+STEPPY = (OP_FLOOR, OP_CEIL, OP_SIGN, OP_FABS, OP_FMOD, OP_COPYSIGN)
+
+
+def run(prog: Prog, args, dom=FLOAT, want_sig=True, margins=None, steps=None):
     """args: list of flat sequences (column-major nonzeros), one per function input.
     returns (outs, sig): outs = list of flat lists per output; sig = tuple of 0/1 per branchy instr
-    (for fmin/fmax: 1 if the first argument wins)."""
+    (for fmin/fmax: 1 if the first argument wins).
+    steps (optional list): receives, for every piecewise operation that is not a comparison (floor, ceil, sign, fabs, fmod, copysign),
+    which piece was taken (the integer for floor / ceil / fmod quotient, the sign of the argument otherwise)."""
     w = [dom.zero] * max(prog.n_w, 1)
     ins = [[dom.inp(v) for v in a] for a in args]
     outs = [[dom.zero] * n for n in prog.out_sizes]
@@ -406,12 +411,31 @@ def run(prog: Prog, args, dom=FLOAT, want_sig=True, margins=None):
             if fn is None:
                 raise NotRational("opcode %d not available in domain %s" % (op, dom.name))
             w[o[0]] = fn(w[i[0]])
+            if steps is not None and op in STEPPY:
+                steps.append(_piece(op, w[i[0]], None, w[o[0]]))
         else:
             fn = bi.get(op)
             if fn is None:
                 raise NotRational("opcode %d not available in domain %s" % (op, dom.name))
             w[o[0]] = fn(w[i[0]], w[i[1]])
+            if steps is not None and op in STEPPY:
+                steps.append(_piece(op, w[i[0]], w[i[1]], w[o[0]]))
     return outs, tuple(sig)
+
+
+def _piece(op, a, b, r):
+    try:
+        if a is POISON or r is POISON or a != a:
+            return "nan"
+        if op in (OP_FLOOR, OP_CEIL):
+            return int(r) if abs(float(r)) < 1e300 else "inf"
+        if op == OP_FMOD:
+            return int(float(a) // float(b)) if b not in (0, POISON) and abs(float(a) / float(b)) < 1e300 else "nan"
+        if op == OP_COPYSIGN:
+            return (a > 0) - (a < 0), (b > 0) - (b < 0)
+        return (a > 0) - (a < 0)
+    except Exception:  # noqa: BLE001
+        return "nan"
 
 
 def flat_args(f: ca.Function, args):
